@@ -48,8 +48,8 @@ ASSUMPTIONS = [
     "never-read theorem: the unpruned run must not end in the model's variable-missing panic sites (scoping is C04/C06) — the oracle checks that the implementation does not panic",
     "dead-store theorem (round 2): same exclusions as the never-read theorem (fuel, the three variable-missing panic sites of the less-pruned run)",
     "round 4: a dropped ASSIGNMENT / re-declaration whose right-hand side calls a pure, trap-free user function is covered (class C, theorem "
-    "C03_prune_sound_five_classes: besides fuel and the variable-missing sites, the panic sites PFuncMissing/PArgCount/PParamRange/PBreakEscapes of the "
-    "less-pruned run are not compared; C03_prune_sound_five_classes_wf discharges all panic sites with C06's wf_static/wf_scoped, leaving fuel only); "
+    "C03_prune_sound_all_classes: besides fuel and the variable-missing sites, the panic sites PFuncMissing/PArgCount/PParamRange/PBreakEscapes of the "
+    "less-pruned run are not compared; C03_prune_sound_all_classes_wf discharges all panic sites with C06's wf_static/wf_scoped, leaving fuel only); "
     "a pruned FIRST declaration with such a right-hand side is not (statement C03_first_declaration_with_call_statement_partial)",
     "round 3: the only plan entries the shipped analysis emits that no theorem covers are stores whose right-hand side calls a USER function "
     "(pruned when the callee's transitive class is PureNoTrap and it has no transitive capture write; the analysis does not require the callee to "
@@ -1617,6 +1617,9 @@ def judge(cid, src, rec, mrec, verdict, out, known_key=None):
         # round 2: the same histogram with the entries LiveCheck.ds_ok accepts (theorem C03_plan_ok3_sound)
         acc3 = verdict.get("acc3", set())
         acc4 = verdict.get("acc4", set()) if all(verdict.get("checked4", (False, False))) else set()
+        if all(verdict.get("checked4", (False, False))):
+            # round 5: plan_ok4's own never-read class (plan_ok_x) covers entries too: everything outside its residual is covered
+            acc4 = set(acc4) | (set(i for i, _ in verdict["stmts"]) - set(verdict["residual4"][0]))
         if "checked4" in verdict and not set(acc3) <= set(verdict.get("acc4", set())) and all(verdict["checked4"]):
             out["disagreements"].append({"stream": "plan_ok4-accepts-less-than-plan_ok3", "case": src,
                                          "detail": "acc3 %s acc4 %s" % (sorted(acc3), sorted(verdict.get("acc4", [])))})
@@ -1864,7 +1867,7 @@ def correspond(env, searching=False, model=True):
                                    "L:<k>": "round 2: entry of round-1 class <k> accepted by the verified backward liveness LiveCheck.ds_ok "
                                             "(theorem C03_prune_dead_stores_sound / C03_plan_ok3_sound; all constructs incl. loops, scope exits, calls, captures, recursion)",
                                    "C:<k>": "round 4: store whose right-hand side calls a pure, trap-free user function, accepted by LiveCheck.ds_ok_x "
-                                            "(theorem C03_prune_sound_five_classes; the panic sites the resolver rules out and fuel are not compared)",
+                                            "(theorem C03_prune_sound_all_classes; the panic sites the resolver rules out and fuel are not compared)",
                                    "X": "no class: broken obligation", "XF": "function live code can call: broken obligation"},
                   "model_compare": out["compare"], "warnings": out["warn"], "unreachable_tags_checked": out["tags_checked"],
                   "never_read_value_tags_checked": out["values_checked"], "panics_in_both_configurations": out["panics_both"],
